@@ -1346,6 +1346,15 @@ class Tensor:
         else:
             _grad = np.full_like(self.data, fill_value=1.0)
 
+        if _grad.strides != self.data.strides and not (
+            _grad.flags.c_contiguous and self.data.flags.c_contiguous
+        ):
+            # as for every stored gradient: take the memory layout of the tensor's data
+            # so that any view of the data (e.g. reshape, ravel) is also a view of the gradient
+            _laid_out = np.empty_like(self.data, dtype=_grad.dtype)
+            _laid_out[...] = _grad
+            _grad = _laid_out
+
         self._grad = _grad
 
         if self.creator is not None:
